@@ -1,17 +1,21 @@
 #!/bin/sh
 # Re-evaluate every filed seeded change with the current machinery (scratch copies only; /repo is never modified).
-# usage: tools/seeded_all.sh [tier]
+# usage: tools/seeded_all.sh [tier] [parallel jobs, default 3]
 cd "$(dirname "$0")/.." || exit 2
 tier=${1:-quick}
-for d in seeded/*/; do
+jobs=${2:-3}
+one() {
+  d=$1
   name=$(basename "$d")
   prop=$(python3 -c "import json;print(json.load(open('$d/meta.json'))['property'])")
   extra=$(python3 -c "import json;m=json.load(open('$d/meta.json'));print(','.join(c for c,v in m.get('checks',{}).items() if v.get('detected') and c!='$prop'))")
-  python3 tools/seeded.py "$prop" "$d" --name "$name" --tier "$tier" ${extra:+--checks "$extra"} > /tmp/seeded_$name.log 2>&1
+  python3 tools/seeded.py "$prop" "$d" --name "$name" --tier "$tier" ${extra:+--checks "$extra"} > "/tmp/seeded_$name.log" 2>&1
   python3 - "$d" <<'PY'
 import json, sys
 m = json.load(open(sys.argv[1] + '/meta.json'))
 det = [c for c, v in m.get('checks', {}).items() if v.get('detected')]
 print(f"{sys.argv[1]:24s} genuine={m.get('genuine')} detected_by={det}")
 PY
-done
+}
+if [ -n "$SEEDED_ONE" ]; then one "$SEEDED_ONE"; exit 0; fi
+ls -d seeded/*/ | xargs -P "$jobs" -I{} env SEEDED_ONE={} sh "$0" "$tier" "$jobs"
